@@ -278,6 +278,18 @@ func reproConfig(g *pkgGen, i int) genOut {
 	if i%2 == 1 {
 		c.Contents = append(c.Contents, &files.Content{Source: "stage", Destination: fmt.Sprintf("/opt/stage%d", i), Type: "tree"})
 	}
+	// a file beyond 4 MiB before others, under the fast compressors (whatever is digested or compressed off the main
+	// path must still come out in order); sources that are hard links of one another, found through a directory
+	if i%4 == 3 {
+		c.Deb.Compression = []string{"none", "zstd"}[(i/4)%2]
+		c.Contents = append(c.Contents,
+			&files.Content{Source: "stage/huge.bin", Destination: fmt.Sprintf("/opt/a%d/00-huge.bin", i)},
+			&files.Content{Source: "stage/huge.bin", Destination: fmt.Sprintf("/opt/a%d/01-huge-again.bin", i)})
+	}
+	if i%2 == 1 {
+		c.Contents = append(c.Contents, &files.Content{Source: "stage/links", Destination: fmt.Sprintf("/opt/links%d", i)},
+			&files.Content{Source: "stage/links/*", Destination: fmt.Sprintf("/opt/links-glob%d/", i)})
+	}
 	// large files first in destination order, smaller ones after them: whatever is pipelined must still come out in order
 	if i%4 == 3 {
 		c.Contents = append(c.Contents,
@@ -307,6 +319,21 @@ func stageTree() {
 	must(os.Symlink("/usr/lib/elsewhere.so", "stage/usr/lib/elsewhere"))
 	os.Remove("stage/usr/self")
 	must(os.Symlink(filepath.Join(wd, "stage/usr"), "stage/usr/self"))
+	huge := make([]byte, 4*1024*1024+4097)
+	for i := range huge {
+		huge[i] = byte(i*7 + i>>9)
+	}
+	must(os.WriteFile("stage/huge.bin", huge, 0o644))
+	must(os.Chtimes("stage/huge.bin", t, t))
+	must(os.MkdirAll("stage/links", 0o755))
+	for _, n := range []string{"a-first", "m-middle", "z-last"} {
+		os.Remove("stage/links/" + n)
+	}
+	must(os.WriteFile("stage/links/m-middle", []byte("one inode, three names\n"), 0o644))
+	must(os.Chtimes("stage/links/m-middle", t, t))
+	must(os.Link("stage/links/m-middle", "stage/links/a-first"))
+	must(os.Link("stage/links/m-middle", "stage/links/z-last"))
+	must(os.Chtimes("stage/links", t, t))
 	for _, d := range []string{"stage/usr/lib", "stage/usr", "stage"} {
 		must(os.Chtimes(d, t, t))
 	}
